@@ -41,6 +41,7 @@ var alphaPlain = []string{"a", "b", "c", "xyz", "0", "42", " ", "Hello", "-", "_
 var alphaCSV = []string{"\"", "\"\"", ",", "\r", "\n", "\r\n", "\x00", "\xff", "\xc3", "é", "世界", "a", "b,c", " ", "x\"y"}
 var alphaHTML = []string{"<", ">", "&", "\"", "'", "+", "&amp;", "&lt;", "&#34;", "&#x7c;", "<script>", "</td>", "<b>", "\n", "a", "b c", "é", "`", "=", "/", "<!--", "-->", "]]>", "{{.}}", "\x00"}
 var alphaMD = []string{"|", "\\", "\\|", "\n", "<", ">", "&", "\"", "'", "&#x7c;", "&amp;", "a", "b", " ", "  ", "世", "*x*", "`", "---", ":", "é", "x\\"}
+
 // multi-line mixes of narrow and wide runs (a later line with fewer runes but more cells, etc.)
 var alphaTextLines = []string{"abc\n世界", "世界\nabcd", "é\n世", "ab\nｗｗ", "a\nbb\nccc", "世\n\nxy", "wide 世界 mix\nshort", "x\n世界界"}
 
@@ -154,8 +155,8 @@ type tableOpts struct {
 	maxRows    int
 	headerMode int // 0 random, 1 always full distinct non-empty, 2 never
 	sizeItems  bool
-	plainItems bool // strings only
-	postAdd    bool // allow Row.Add after attach, AddRow of pre-built rows, zero rows
+	plainItems bool     // strings only
+	postAdd    bool     // allow Row.Add after attach, AddRow of pre-built rows, zero rows
 	midRender  []string // wrapper kinds created right after the table and rendered between building steps
 }
 
